@@ -427,14 +427,20 @@ def _random_case(rng, mx, force=None):
     return mk_case(_image(rng, m, n, ik), lab, msk, w, "%s/%s/%s/w%s" % (ik, lk, mk, "0" if w == 0 else "+"))
 
 
-def _grow_case(rng):
-    """more than 1000 initial queue rows: heap.space = items, the first pushes reallocate"""
-    m, n = 35, 36
-    lab = rng.randint(1, 9, (m, n))
-    lab[rng.rand(m, n) < 0.12] = 0
-    lab[10:14, 10:14] = 0
-    msk = rng.rand(m, n) < 0.97
-    return mk_case(rng.randint(0, 8, (m, n)) / 8.0, lab, msk, 0.5, "grow")
+def _grow_case(rng=None):
+    """More than 1000 initial queue rows (heap.space = items), so the queue reallocates at the second
+    push after the first pop, while it holds rows with different keys in permuted slots.  Pixel (0,0)
+    is pushed first from seed (0,1) (expensive step across the column gradient) and later reached
+    cheaply from seed (1,0): a reallocation that loses the pointer permutation pops it too early.
+    Deterministic (fixed generator): it is a constructed corpus case."""
+    r = np.random.RandomState(20260301)
+    m = n = 38
+    lab = r.randint(1, 9, (m, n))
+    lab[r.rand(m, n) < 0.22] = 0
+    lab[0, 0], lab[0, 1], lab[1, 0], lab[1, 1] = 0, 1, 2, 3
+    img = np.tile(np.arange(n, dtype=float), (m, 1))
+    img[4:, :] += r.randint(0, 8, (m - 4, n)) / 8.0
+    return mk_case(img, lab, np.ones((m, n), bool), 0.5, "grow")
 
 
 def _corpus():
@@ -508,16 +514,21 @@ def shrink_candidates(case):
                 "image": [[case["image"][i][j] for j in cols] for i in rows],
                 "labels": [[case["labels"][i][j] for j in cols] for i in rows],
                 "mask": [[case["mask"][i][j] for j in cols] for i in rows]}
+    big = m * n > 150       # every candidate costs a Coq evaluation: only halve large cases
     if m > 1:
         yield sub(list(range(m // 2)), list(range(n)))
         yield sub(list(range(m // 2, m)), list(range(n)))
-        for i in (0, m - 1):
-            yield sub([r for r in range(m) if r != i], list(range(n)))
+        if not big:
+            for i in (0, m - 1):
+                yield sub([r for r in range(m) if r != i], list(range(n)))
     if n > 1:
         yield sub(list(range(m)), list(range(n // 2)))
         yield sub(list(range(m)), list(range(n // 2, n)))
-        for j in (0, n - 1):
-            yield sub(list(range(m)), [c for c in range(n) if c != j])
+        if not big:
+            for j in (0, n - 1):
+                yield sub(list(range(m)), [c for c in range(n) if c != j])
+    if big:
+        return
     seeds = [(i, j) for i in range(m) for j in range(n) if case["labels"][i][j] != 0]
     if len(seeds) > 1:
         for i, j in seeds[:12]:
